@@ -485,6 +485,8 @@ def _table_element(ck, prog, f, o, tabs):
                 continue
             if isinstance(v, ast.Name) and v.id == name or (isinstance(v, ast.Attribute) and v.attr == name):
                 return False            # the table itself escapes
+            if isinstance(v, ast.Name) and isinstance(t.value, ast.Name) and v.id == t.value.id:
+                continue                # `T[key] = value; return value`: the very object that was stored
             if not (isinstance(v, ast.Subscript) and unparse(v.value).split(".")[-1] == name):
                 direct = False
     if kinds == {True}:
